@@ -32,6 +32,8 @@ type C07Case struct {
 	Close  bool    `json:"close_rings"`
 	IDs    []int64 `json:"ids"`              // nil = option not given
 	Second *gm.G   `json:"second,omitempty"` // a second geometry concatenated after the first (size header splits them)
+	// OptOrder permutes the option list (options are independent: their order must not matter)
+	OptOrder []int `json:"opt_order,omitempty"`
 }
 
 func pow10Rat(p int) *big.Rat {
@@ -207,6 +209,9 @@ func c07Gen(t *rapid.T, cx *h.Ctx) C07Case {
 			ZM: func(t *rapid.T, l string) float64 { return float64(rapid.IntRange(-50, 50).Draw(t, l)) }})
 		c.Second = &s
 	}
+	if rapid.Bool().Draw(t, "shuffleopts") {
+		c.OptOrder = rapid.SliceOfN(rapid.IntRange(0, 5), 6, 6).Draw(t, "optorder")
+	}
 	return c
 }
 
@@ -229,6 +234,11 @@ func c07Opts(c C07Case) []geom.TWKBWriterOption {
 	}
 	if c.IDs != nil {
 		opts = append(opts, geom.TWKBIDList(c.IDs))
+	}
+	// selection-style shuffle driven by the drawn order
+	for i := 0; i < len(opts) && i < len(c.OptOrder); i++ {
+		j := i + c.OptOrder[i]%(len(opts)-i)
+		opts[i], opts[j] = opts[j], opts[i]
 	}
 	return opts
 }
